@@ -26,7 +26,7 @@ def names(sc) -> dict:
     dn = {"pubdecl": "pubdecl" + s, "_privdecl": "_privdecl" + s, "__dunder__": "__dunder" + s + "__", "__mangled": "__mangled" + s, "_trail__": "_trail" + s + "__"}[d]
     return {"decl": dn, "stem": sc["stem"] + s, "alias": (sc["reexp"]["alias"] + s) if sc["reexp"]["alias"] else "",
             "meth": "meth" + s, "attr": "attr" + s, "pmeth": "_pmeth" + s, "iattr": "iattr" + s, "attr2": "attrb" + s, "iattr2": "iattrb" + s, "ometh": "ometh" + s, "prop": "prop" + s, "inner": "Inner" + s,
-            "imeth": "imeth" + s, "pinner": "_PInner" + s, "AA": "AA" + s, "BB": "BB" + s}
+            "imeth": "imeth" + s, "pinner": "_PInner" + s, "AA": "AA" + s, "BB": "BB" + s, "PM": "_pm" + s}
 
 
 def decl_src(sc, n) -> str:
@@ -44,7 +44,7 @@ def decl_src(sc, n) -> str:
         return (f"class {d}:\n    def {n['meth']}(self) -> int:\n        ...\n\n    class {n['inner']}:\n        def {n['imeth']}(self) -> int:\n            ...\n\n"
                 f"    class {n['pinner']}:\n        pass\n")
     if k == "enum":
-        return f"from enum import Enum\n\n\nclass {d}(Enum):\n    {n['AA']} = 1\n    {n['BB']} = 2\n"
+        return f"from enum import Enum\n\n\nclass {d}(Enum):\n    {n['AA']} = 1\n    {n['BB']} = 2\n    {n['PM']} = 3\n"
     raise ValueError(k)
 
 
@@ -80,6 +80,21 @@ def scenario_files(sc, base: str) -> dict:
     return files
 
 
+def _add_importer(files: dict, chunk, rootname: str) -> None:
+    """A plain module that sorts before every other one imports the private declarations (private by name or by path) that nothing
+    re-exports (an import in a module is no re-export), and a sub-package that consists of its package file only (the type checker
+    never loads it)."""
+    lines = []
+    for sc in chunk:
+        private_name = sc["dname"] in ("_privdecl", "__mangled", "_trail__") and sc["stem"] == "pubmod" and sc["place"] != "privsub"
+        private_path = sc["dname"] == "pubdecl" and (sc["stem"] == "_privmod" or sc["place"] == "privsub")
+        if sc["reexp"]["form"] == "none" and (private_name or private_path):
+            n = names(sc)
+            lines.append(f"from {rootname}.s{sc['id']:04d}.{'.'.join([*PLACE[sc['place']], n['stem']])} import {n['decl']}")
+    files["aaa_first.py"] = "\n".join(lines) + "\n\n\ndef first_fn() -> int:\n    ...\n"
+    files["zdata/__init__.py"] = ""
+
+
 def build_packs(scs, root="topork", pack=PACK) -> list[tuple[Path, list]]:
     """-> [(package dir, scenarios in it)]"""
     out = []
@@ -89,15 +104,7 @@ def build_packs(scs, root="topork", pack=PACK) -> list[tuple[Path, list]]:
         for sc in chunk:
             files.update(scenario_files(sc, f"s{sc['id']:04d}"))
         rootname = f"{root}{c // pack:03d}"
-        # a plain module that sorts before every other one imports the private declarations that nothing re-exports (an import in a
-        # module is no re-export), and a sub-package that consists of its package file only (the type checker never loads it)
-        lines = []
-        for sc in chunk:
-            if sc["reexp"]["form"] == "none" and sc["dname"] in ("_privdecl", "__mangled", "_trail__") and sc["stem"] == "pubmod" and sc["place"] != "privsub":
-                n = names(sc)
-                lines.append(f"from {rootname}.s{sc['id']:04d}.{'.'.join([*PLACE[sc['place']], n['stem']])} import {n['decl']}")
-        files["aaa_first.py"] = "\n".join(lines) + "\n\n\ndef first_fn() -> int:\n    ...\n"
-        files["zdata/__init__.py"] = ""
+        _add_importer(files, chunk, rootname)
         out.append((write_pkg(files, rootname), chunk))
     return out
 
@@ -105,6 +112,7 @@ def build_packs(scs, root="topork", pack=PACK) -> list[tuple[Path, list]]:
 def build_single(sc, root="topoiso") -> Path:
     files = {"__init__.py": ""}
     files.update(scenario_files(sc, f"s{sc['id']:04d}"))
+    _add_importer(files, [sc], f"{root}{sc['id']:04d}")
     return write_pkg(files, f"{root}{sc['id']:04d}")
 
 
@@ -121,9 +129,9 @@ def observe(sc, stubs: Stubs, idx: dict, rootname: str) -> dict:
     sid = f"s{sc['id']:04d}"
     mark = sfx(sc["id"])
     roles = {"function": ["decl"], "class": ["decl", "meth", "attr", "pmeth", "iattr", "attr2", "iattr2", "ometh", "prop"],
-             "classinner": ["decl", "meth", "inner", "imeth", "pinner"], "enum": ["decl", "AA", "BB"]}[sc["kind"]]
+             "classinner": ["decl", "meth", "inner", "imeth", "pinner"], "enum": ["decl", "AA", "BB", "PM"]}[sc["kind"]]
     top_names = {n["decl"]} | ({n["alias"]} if n["alias"] else set())
-    owner = {"meth": "decl", "attr": "decl", "pmeth": "decl", "iattr": "decl", "attr2": "decl", "iattr2": "decl", "ometh": "decl", "prop": "decl", "inner": "decl", "pinner": "decl", "imeth": "inner", "AA": "decl", "BB": "decl"}
+    owner = {"meth": "decl", "attr": "decl", "pmeth": "decl", "iattr": "decl", "attr2": "decl", "iattr2": "decl", "ometh": "decl", "prop": "decl", "inner": "decl", "pinner": "decl", "PM": "decl", "imeth": "inner", "AA": "decl", "BB": "decl"}
     occs = {r: [] for r in roles}
     for rel, f in stubs.files.items():
         home = None
@@ -156,7 +164,7 @@ def observe(sc, stubs: Stubs, idx: dict, rootname: str) -> dict:
           "attr2": flag("attributes", f"{did}/{n['attr2']}"), "iattr2": flag("attributes", f"{did}/{n['iattr2']}"),
           "ometh": flag("functions", f"{did}/{n['ometh']}"), "prop": flag("functions", f"{did}/{n['prop']}"),
           "inner": flag("classes", f"{did}/{n['inner']}"), "pinner": flag("classes", f"{did}/{n['pinner']}"),
-          "imeth": flag("functions", f"{did}/{n['inner']}/{n['imeth']}"), "AA": "absent", "BB": "absent"}
+          "imeth": flag("functions", f"{did}/{n['inner']}/{n['imeth']}"), "AA": "absent", "BB": "absent", "PM": "absent"}
     # decl names are reported without the scenario suffix so that the spec can compare them with dname / alias
     ents = []
     for r in roles:
@@ -178,6 +186,8 @@ def u2_names(sc):
     v = sc.get("variant", "distinct")
     if v == "pkgnamed":
         return {1: "declone" + s, 2: "decltwo" + s, "m1": "_moda", "m2": "modb"}
+    if v == "bareimport":
+        return {1: "declone" + s, 2: "decltwo" + s, "m1": "_moda", "m2": "_modb"}
     if v in ("samename", "samenameboth"):
         return {1: "samedecl" + s, 2: "samedecl" + s, "m1": "_moda", "m2": "_modb"}
     if v == "suffix":
@@ -236,6 +246,10 @@ def u2_files(sc, root: str) -> dict:
         files[f"{sid}/sub/{nm['m2']}.py"] = "def fillsub" + s + "() -> int:\n    ...\n"
         files[f"{sid}/sub/deep/__init__.py"] = decl(1)
         files[f"{sid}/sub/__init__.py"] = "from . import deep\n\n\n" + decl(2)
+        return files
+    if sc.get("variant") == "bareimport":    # both modules are private; the package files import top-level modules called like the declarations
+        files[f"{sid}/sub/deep/__init__.py"] += f"import {nm[1]}\n"
+        files[f"{sid}/sub/__init__.py"] += f"import {nm[2]} as {nm[2]}_mod\nimport {root}.{sid}.sub.{nm['m2']}\n"
         return files
     if sc.get("variant") == "privpkgtop":    # ... the private package lies beside the packages that re-export it (same depth)
         files[f"{sid}/sub/deep/{nm['m1']}.py"] = "def filldeep" + s + "() -> int:\n    ...\n"
